@@ -516,6 +516,7 @@ pub fn run_c08(rep: &mut Report, thorough: bool) {
     structured_pairs(&s.cfg, rep);
     context_switch(&s.cfg, rep);
     neighbour_probe(&s.cfg, rep);
+    crate::props::apps::busy_stage(rep, &s.cfg, "C08", "busy-responder", &crate::props::apps::busy_convs(), 70_000);
     {
         // depth-2 histories over the base corpus and the L2-L4 set, process-level differential
         let mut fr: Vec<crate::props::pairs::PFrame> = crate::props::pairs::l2l4_frames();
